@@ -156,6 +156,11 @@ def option_cases():
         ('options:missing-outdir', ['--python_out', '{dir}/nope', '{main}']),
         ('options:missing-input', ['--python_out', '{out}', '{dir}/nope.prophy']),
         ('options:input-is-dir', ['--python_out', '{out}', '{dir}']),
+        ('options:python-out-is-a-file', ['--python_out', '{main}', '{main}']),
+        ('options:cpp-out-is-a-file', ['--cpp_out', '{main}', '{main}']),
+        ('options:cpp-full-out-is-a-file', ['--cpp_full_out', '{main}', '{main}']),
+        ('options:include-dir-is-a-file', ['-I', '{main}', '--python_out', '{out}', '{main}']),
+        ('options:empty-out', ['--python_out', '', '{main}']),
         ('options:missing-include-dir', ['-I', '{dir}/nope', '--python_out', '{out}', '{main}']),
         ('options:missing-patch', ['--patch', '{dir}/nope.patch', '--python_out', '{out}', '{main}']),
         ('options:out-twice', ['--python_out', '{out}', '--python_out', '{out}', '{main}']),
@@ -228,13 +233,17 @@ def random_duplicate_isar(rng):
                 items.append('<typedef name="%s" type="%s"/>' % (x, rng.choice(pool)))
             elif r < 0.7:
                 items.append('<typedef name="%s" primitiveType="32 bit integer unsigned"/>' % x)
-            elif r < 0.85:
+            elif r < 0.8:
                 items.append('<struct name="%s"><member name="m" type="%s"/><member name="k" type="u8"/></struct>'
                              % (x, rng.choice(pool)))
+            elif r < 0.88:
+                items.append('<union name="%s"><member name="m" type="%s" discriminatorValue="1"/>'
+                             '<member name="k" type="u8" discriminatorValue="2"/></union>' % (x, rng.choice(pool)))
             else:
                 items.append('<enum name="%s"><enum-member name="%s_E%d" value="1"/></enum>' % (x, x, i))
         items.append('<struct name="User"><member name="m" type="%s"/><member name="n" type="%s">'
                      '<dimension isVariableSize="true"/></member></struct>' % (rng.choice(pool), rng.choice(pool)))
+        items.append('<union name="UserU"><member name="m" type="%s" discriminatorValue="1"/></union>' % rng.choice(pool))
         out.append(('isar-duplicate-names', '<x>\n' + '\n'.join(items) + '\n</x>\n'))
     return out
 
@@ -287,6 +296,8 @@ def run_shard(spec):
                 xml, patch = S.to_isar(base)
                 for fam, t in B.token_corruptions(xml, rng, 2):
                     go('isar-' + fam, t, fmt='isar', patch=patch)
+                for fam, t in B.expression_injections_xml(xml, rng, 2):
+                    go(fam, t, fmt='isar', patch=patch)
                 if patch:
                     for fam, t in B.token_corruptions(patch, rng, 2):
                         go('patch-' + fam, xml, fmt='isar', patch=t)
@@ -301,7 +312,7 @@ def finish(ctx, merged, specs):
     if specs and specs[0]['kind'] == 'replay':
         return
     need = ['outcome:ok', 'outcome:designed', 'family:structural', 'family:replace-token', 'family:expression',
-            'family:isar-random-cycle', 'family:isar-duplicate-names',
+            'family:isar-random-cycle', 'family:isar-duplicate-names', 'family:isar-expression',
             'family:options', 'family:include', 'cli_runs', 'positional_diagnostics']
     missing = [f for f in need if not merged['counters'].get(f)]
     if missing and not merged['inconclusive']:
